@@ -3,7 +3,8 @@
 (plus detected_by in each meta.json). Never leaves /repo modified."""
 import json, os, re, subprocess, sys, glob
 VERIF = "/verif"
-EXTRA = {  # additional checks that share the engine with the seed's own property
+EXTRA = {
+    "R2-C02-1": ["C13"], "R2-C05-1": ["C14"], "R2-C13-1": ["C05"], "R2-C04-1": ["C05", "C14"], "R2-C04-2": ["C18"], "R2-C07-2": ["C08"], "R2-C01-1": ["C02"], "R2-C02-2": ["C08"],  # additional checks that share the engine with the seed's own property
     "C01-2": ["C02"], "C03-2": ["C13", "C15"], "C05-1": ["C14"], "C05-2": ["C14"], "C14-2": ["C05"], "C02-1": ["C01"], "C12-1": ["C17"],
 }
 SELF = {  # own mutations: file -> checks
@@ -36,13 +37,13 @@ def run(patch, check):
     return "inconclusive(rc=%d)" % p.returncode
 only = sys.argv[1:]
 rows = []
-for d in sorted(glob.glob(VERIF + "/seeded/C*-*")):
+for d in sorted(glob.glob(VERIF + "/seeded/C*-*") + glob.glob(VERIF + "/seeded/R2-C*-*")):
     name = os.path.basename(d)
     if only and name not in only:
         continue
     meta_p = os.path.join(d, "meta.json")
     meta = json.load(open(meta_p)) if os.path.exists(meta_p) else {}
-    prop = name.split("-")[0]
+    prop = name.replace("R2-", "").split("-")[0]
     det = {}
     for chk in [prop] + EXTRA.get(name, []):
         det[chk] = run(os.path.join(d, "patch.diff"), chk)
